@@ -85,6 +85,20 @@ def run(chk):
                 g = {"x_min": round(c0[0] - 4e5), "x_max": round(c0[0] + 4e5), "y_min": round(c0[1] - 4e5), "y_max": round(c0[1] + 4e5),
                      "z_min": 6e5, "z_max": 1000e3}
             gtype = "cartesian"
+            if gi % 2 == 0:
+                # two plates with different tags side by side inside the grid: the by-tag files of both must hold their own cells only
+                x0, x1 = g["x_min"], g["x_max"]
+                y0, y1 = (g.get("y_min", -1e5), g.get("y_max", 1e5))
+                xm = (x0 + x1) / 2
+                if dim == 2 and "cross section" in wj:
+                    cs0, cs1 = wj["cross section"]
+                    # along the cross section the plates are split at x = xm of the section coordinate: use big boxes around it
+                    y0, y1 = -2e6, 2e6
+                    x0, x1, xm = -2e6, 2e6, cs0[0] + 0.5 * (cs1[0] - cs0[0])
+                wj["features"].append({"model": "continental plate", "name": "left", "coordinates": [[x0 - 1e5, y0 - 1e5], [xm, y0 - 1e5], [xm, y1 + 1e5], [x0 - 1e5, y1 + 1e5]],
+                                       "max depth": 2.5e5, "temperature models": [{"model": "uniform", "temperature": 600.0}]})
+                wj["features"].append({"model": "oceanic plate", "name": "right", "coordinates": [[xm, y0 - 1e5], [x1 + 1e5, y0 - 1e5], [x1 + 1e5, y1 + 1e5], [xm, y1 + 1e5]],
+                                       "max depth": 2.5e5, "temperature models": [{"model": "uniform", "temperature": 700.0}]})
         elif kind.startswith("chunk"):
             c0 = wj["features"][0]["coordinates"][0] if wj["features"] else [10.0, 10.0]
             g = {"x_min": round(c0[0] - 15, 1), "x_max": round(c0[0] + 15, 1), "y_min": max(-80.0, round(c0[1] - 10, 1)), "y_max": min(80.0, round(c0[1] + 10, 1)),
